@@ -227,6 +227,9 @@ func (server *Server) Validate(ctx context.Context, opts ...ValidationOption) (e
 		if !strings.Contains(server.URL, "{"+name+"}") {
 			return errors.New("server has undeclared variables")
 		}
+		if v == nil {
+			return fmt.Errorf("server variable %q must be an object", name)
+		}
 		if err = v.Validate(ctx); err != nil {
 			return
 		}
